@@ -370,6 +370,37 @@ func (x *Exec) mergeReturns(fr *Frame) (*State, Value, *Frame) {
 	return out, val, fr
 }
 
+// opaqueIptr: a non-nil pointer value standing for the interior pointer lv (distinct from every allocated reference).
+func opaqueIptr(lv *LValue) *Term {
+	args := []*Term{lv.Ref}
+	if lv.Idx != nil {
+		args = append(args, lv.Idx)
+	}
+	u := UF("iptr_"+sortSuffix(lv.Key)+fmt.Sprint(len(args)), "Int", args...)
+	return Sub(Int(-1), Ite(Ge(u, Int(0)), u, Int(0)))
+}
+
+func mentionsIptr(t *Term) bool {
+	seen := map[*Term]bool{}
+	var rec func(t *Term) bool
+	rec = func(t *Term) bool {
+		if t == nil || seen[t] {
+			return false
+		}
+		seen[t] = true
+		if strings.HasPrefix(t.Op, "iptr_") {
+			return true
+		}
+		for _, a := range t.Args {
+			if rec(a) {
+				return true
+			}
+		}
+		return false
+	}
+	return rec(t)
+}
+
 func (x *Exec) iteValue(c *Term, a, b Value) Value {
 	if len(a.Tup) > 0 || len(b.Tup) > 0 {
 		if len(a.Tup) != len(b.Tup) {
@@ -392,6 +423,14 @@ func (x *Exec) iteValue(c *Term, a, b Value) Value {
 			lv.Ref = Ite(c, a.LV.Ref, b.LV.Ref)
 			lv.Idx = Ite(c, a.LV.Idx, b.LV.Idx)
 			return Value{LV: &lv}
+		}
+		// an interior pointer (&x.f) merged with a plain pointer value (typically nil): the result is an opaque pointer -
+		// it can be compared with nil, stored and passed on, but not dereferenced (derefLV refuses)
+		if a.LV != nil && b.LV == nil && b.T != nil {
+			return Value{T: Ite(c, opaqueIptr(a.LV), b.T)}
+		}
+		if b.LV != nil && a.LV == nil && a.T != nil {
+			return Value{T: Ite(c, a.T, opaqueIptr(b.LV))}
 		}
 		unsup("merge of interior pointers")
 	}
